@@ -9,6 +9,7 @@ from ..cfg import cfg_of
 from ..core import AnalysisError, call_name, unparse, walk_no_nested
 from ..packs import ecc
 from ..report import Ctx
+from ..pattern import body_is, find, find_expr, has, has_expr
 
 
 def run(ctx: Ctx) -> None:
@@ -44,35 +45,33 @@ def run(ctx: Ctx) -> None:
     ctx.add('C10.R1', 'IdManager.draw_types', ok, dt, 'type of a name = drawType of the expression registered under that name' if ok else f'draw_types: {det[:120]}', det)
     E = prog.cls('expressions.base_expressions', 'Expression')
     dd = E.methods['dict_of_draw_types']
-    ok = 'return {name: expression.drawType for name, expression in the_draws.items()}' in unparse(dd.node) and 'the_type=TypeOfElementaryExpression.DRAWS' in unparse(dd.node)
+    ok = body_is(dd.body, '_D = self.dict_of_elementary_expression(the_type=TypeOfElementaryExpression.DRAWS)\nreturn {_N: _E.drawType for _N, _E in _D.items()}') is not None
     ctx.add('C10.R1', 'Expression.dict_of_draw_types', ok, dd, 'name -> drawType of the same expression' if ok else 'dict_of_draw_types changed', 'ddt')
     D = prog.cls('database', 'Database')
     gd = D.methods['generate_draws']
     ps = gd.positional_params()
     types_p, names_p, n_p = ps[1], ps[2], ps[3]
-    loops = [x for x in walk_no_nested(gd.node) if isinstance(x, ast.For) and unparse(x.iter) == f'enumerate({names_p})']
-    ok = False
-    det = ''
-    if len(loops) == 1 and isinstance(loops[0].target, ast.Tuple):
-        i, v = (unparse(x) for x in loops[0].target.elts)
-        t = unparse(loops[0])
-        det = t[:300]
-        name_var = v
-        m = re.search(rf'(\w+) = {v}\n', t)
-        if m:
-            name_var = m.group(1)
-        mt = re.search(rf'(\w+)(?:: str)? = {types_p}\[{name_var}\]', t)
-        if mt:
-            tv = mt.group(1)
-            native = re.search(rf'(\w+)(?:: [^=]+)? = native_random_number_generators\.get\({tv}\)', t)
-            user = re.search(rf'= self\.userRandomNumberGenerators\.get\({tv}\)', t)
-            store = re.search(rf'list_of_draws\[{i}\] = (\w+)\.generator\(', t)
-            ok = bool(native and user and store and store.group(1) == native.group(1)) and t.index('native_random_number_generators.get') < t.index('self.userRandomNumberGenerators.get')
-            ok = ok and re.search(rf'if {native.group(1)} is None:', t) is not None and 'raise BiogemeError(error_msg)' in t
-    ctx.add('C10.R1', 'Database.generate_draws:columns', ok, gd, 'column i holds the series of the i-th name, generated with the generator of that name\'s declared type (native, else user, else error)' if ok else f'filling of the draw table changed: {det[:160]}', det)
-    t = unparse(gd.node)
-    ok = f'list_of_draws = [None] * len({names_p})' in t and 'self.theDraws = np.array(list_of_draws)' in t and 'self.theDraws = np.moveaxis(self.theDraws, 0, -1)' in t and unparse(gd.body[-1]) == 'return self.theDraws'
-    ctx.add('C10.R1', 'Database.generate_draws:layout', ok, gd, 'the table is [unit, draw, variable]: the variable axis is moved last' if ok else 'layout of the draw table changed', 'layout')
+    GEN = f"""
+_L = [None] * len({names_p})
+for _I, _V in enumerate({names_p}):
+    NAMEDEF
+    _T = {types_p}[_NAME]
+    ___
+    _G = native_random_number_generators.get(_T)
+    if _G is None:
+        _G = self.userRandomNumberGenerators.get(_T)
+        if _G is None:
+            ___
+            raise BiogemeError(__MSG)
+    _L[_I] = _G.generator(self.get_sample_size(), {n_p})
+    ___
+self.theDraws = np.array(_L)
+___
+self.theDraws = np.moveaxis(self.theDraws, 0, -1)
+return self.theDraws
+"""
+    ok = has(gd.node, GEN.replace('NAMEDEF', '_NAME = _V')) or has(gd.node, GEN.replace('    NAMEDEF\n', '').replace('_NAME', '_V'))
+    ctx.add('C10.R1', 'Database.generate_draws:columns', ok, gd, 'column i holds the series of the i-th name, generated with the generator of that name\'s declared type (native, else user, else error); the variable axis is moved last' if ok else 'the filling / layout of the draw table changed (column i <-> name i <-> generator of its declared type, native before user, moveaxis(0, -1))', 'columns')
     from .c01 import leaf_tables
 
     sub = Ctx(prog, ctx.prop, ctx.tier)
@@ -80,7 +79,7 @@ def run(ctx: Ctx) -> None:
     for o in sub.obligations:
         if o.construct in ('bioDraws.set_id_manager', 'bioDraws.dict_of_elementary_expression', 'RandomVariable.set_id_manager', 'IdManager.prepare:tables', 'expressions_names_indices'):
             ctx.add('C10.R1', o.construct, o.ok, (o.file, o.line), o.message, o.detail)
-    ctx.floor('C10.R1', 10)
+    ctx.floor('C10.R1', 9)
 
     B = prog.cls('biogeme', 'BIOGEME')
     init = B.methods['__init__']
@@ -95,7 +94,7 @@ def run(ctx: Ctx) -> None:
     p = srg.positional_params()[1]
     loops = [x for x in walk_no_nested(srg.node) if isinstance(x, ast.For) and unparse(x.iter) == 'native_random_number_generators']
     store = [x for x in walk_no_nested(srg.node) if isinstance(x, ast.Assign) and unparse(x.targets[0]) == 'self.userRandomNumberGenerators']
-    ok = len(loops) == 1 and len(store) == 1 and f'if {unparse(loops[0].target)} in {p}:' in unparse(loops[0]) and any(isinstance(x, ast.Raise) for x in ast.walk(loops[0])) and c2.dominates(c2.node_of(loops[0]), c2.node_of(store[0]))
+    ok = len(loops) == 1 and len(store) == 1 and has(srg.node, f'for _K in native_random_number_generators:\n    if _K in {p}:\n        ___\n        raise ValueError(__MSG)') and c2.dominates(c2.node_of(loops[0]), c2.node_of(store[0]))
     ctx.add('C10.R3', 'Database.set_random_number_generators', ok, srg, 'a user generator cannot take the name of a native one' if ok else 'reserved names are no longer refused before the user generators are stored', 'reserved')
     from . import c01
 
@@ -106,10 +105,10 @@ def run(ctx: Ctx) -> None:
             ctx.add('C10.R4', o.construct, o.ok, (o.file, o.line), o.message, o.detail)
     ecc(ctx, 'C10.R4', methods={'setDraws'})
     calc = prog.func('expressions.calculator', 'calculate_function_and_derivatives')
-    ok = 'if the_expression.requires_draws():' in unparse(calc.node) and 'the_cpp.setDraws(database.theDraws)' in unparse(calc.node)
+    ok = has(calc.node, 'if the_expression.requires_draws():\n    ___\n    _C.setDraws(database.theDraws)')
     ctx.add('C10.R4', 'calculator:draws', ok, calc, 'an expression that requires draws gets the draw table of the database' if ok else 'calculator no longer hands the draws over', 'draws')
     rq = E.methods['requires_draws']
-    ok = unparse(rq.body[-1]) == "return self.embed_expression('MonteCarlo')"
+    ok = body_is(rq.body, "return self.embed_expression('MonteCarlo')") is not None
     ctx.add('C10.R4', 'Expression.requires_draws', ok, rq, 'draws are required iff a MonteCarlo operator is present' if ok else 'requires_draws changed', 'req')
     ctx.floor('C10.R4', 9)
 
